@@ -66,24 +66,9 @@ fn o11_3_size_one_cell() {
     std::mem::forget(settings);
 }
 
-//@ harness: o12_1_size_is_max_cell props=C12,C11 tier=thorough obl=O12.1 timeout=3000 mem=30
-//@ desc: CellBuffer with two occupied cells at fixed positions (5,1), (2,7) (BTreeMap with symbolic keys is out of reach): get_size uses the right-most column (5) and the bottom-most row (7) for any scale in the set: (7*scale, 18*scale)
-//@ encodes: CellBuffer::get_size, CellBuffer::bounds
-#[kani::proof]
-#[kani::stub(std::io::_print, crate::kstub::noop_print)]
-#[kani::unwind(6)]
-fn o12_1_size_is_max_cell() {
-    let s = any_scale();
-    let settings = settings_with_scale(s);
-    let mut cb = CellBuffer::new();
-    cb.insert(Cell::new(5, 1), 'a');
-    cb.insert(Cell::new(2, 7), 'b');
-    let (w, h) = cb.get_size(&settings);
-    assert!(w == s * 7.0, "O12.1 width follows the right-most occupied column");
-    assert!(h == s * 18.0, "O12.1 height follows the bottom-most occupied row");
-    std::mem::forget(cb);
-    std::mem::forget(settings);
-}
+// NOTE (tried, out of reach): get_size on a CellBuffer with two or three occupied cells at
+// fixed positions ran out of 20 / 30 GB (BTreeMap insertion); that the canvas follows the
+// right-most / bottom-most cell is therefore not decided, only the one-cell formula is.
 
 // NOTE (tried, out of reach): From<StringBuffer> for CellBuffer on a row of three
 // symbolic characters with escape_line stubbed by identity did not finish in
